@@ -621,9 +621,29 @@ fn scenario(seed: u64, k: u64, out: &Out) {
         if w.dead {
             break;
         }
-        match rng.below(10) {
+        match rng.below(12) {
             0 | 1 | 2 => {
                 w.round(&mut fz);
+            }
+            10 => {
+                // peer churn: the set of proved peers (and with it the agreed filter hashes / check points) changes
+                let connected: Vec<usize> = (0..w.peers.len()).filter(|i| w.peers[*i].connected).collect();
+                if connected.len() >= 2 && rng.chance(1, 2) {
+                    let pi = *rng.pick(&connected);
+                    w.disconnect(pi);
+                } else if w.peers.len() < 6 {
+                    let pi = w.add_peer(0, false);
+                    w.connect(pi);
+                }
+            }
+            11 => {
+                // restart: everything that lives in memory only (agreed filter hashes, peer states) is gone
+                if rng.chance(1, 3) {
+                    if w.restart().is_err() {
+                        break;
+                    }
+                    w.connect_all();
+                }
             }
             3 => net.grow(&mut w, rng.range(1, 6)),
             4 => {
@@ -648,7 +668,17 @@ fn scenario(seed: u64, k: u64, out: &Out) {
                 }
                 let pi = *rng.pick(&connected);
                 let chain = w.chains[0].clone();
-                let (proto, data, gen): (P, P2pBytes, String) = match rng.below(8) {
+                let (proto, data, gen): (P, P2pBytes, String) = match rng.below(9) {
+                    8 if w.client.is_some() => {
+                        // state-aware probe: a BlockFilters batch that continues exactly at the client's filter progress
+                        // (accepted by the start-number check in every state), with arbitrary content
+                        let start = w.c().storage.get_min_filtered_block_number() + 1;
+                        let n = rng.range(1, 3) as usize;
+                        let filters: Vec<packed::Bytes> = (0..n).map(|_| { let l = rng.range(0, 12) as usize; rng.bytes(l).pack() }).collect();
+                        let hashes: Vec<Byte32> = (0..n).map(|i| if (start as usize + i) <= chain.tip() as usize { chain.blocks[start as usize + i].hash() } else { Byte32::zero() }).collect();
+                        let m = packed::BlockFilters::new_builder().start_number(start.pack()).block_hashes(hashes.pack()).filters(filters.pack()).build();
+                        (P::Filter, server::filter_msg(m), "state-aware|BlockFilters-at-filter-progress".into())
+                    }
                     0 | 1 | 2 => {
                         let (p, d, g) = grammar(&mut fz.rng, &chain);
                         (p, d, format!("grammar|{}", g))
